@@ -4,10 +4,11 @@
            RELS items Id:Target:Type; SHEETS items name:vis:kind:rid:tstyle:PART:perm:omit:pre:post:talt
            (PART = part name relative to xl/, any folders / file name; xlsb: name:vis:kind:rid:PART:tabid:talt)
      xlsxr RELSWIRE WBWIRE                       M only, raw event lists
-     xlsb  D1904 OMITPROP FLAGSHI PROPREST JUNK1 JUNK2 END TAIL RELS SHEETS XTIS NAMES
+     xlsb  D1904 OMITPROP FLAGSHI PROPREST JUNK1 JUNK2 END TAIL RELS SHEETS LINKS XTIS NAMES
+           (LINKS: the supporting links of the EXTERNALS block in record order, kind:hexpayload,…)
              -> rels wire|hex workbook.bin|model|spec|known|legal
      xlsbr RELSWIRE HEX                          M only
-     xls   D1904 OMIT1904 JUNK0 JUNK1 JUNK2 JUNK3 TAIL SHEETS XTIS NAMES
+     xls   D1904 OMIT1904 JUNK0 JUNK1 JUNK2 JUNK3 TAIL SHEETS XTIS XCUTS NAMES
              -> hex Workbook stream|model|spec|known|legal   (sheet positions are relative to TAIL)
      xlsr  HEX                                   M only
      ods   JUNK NJUNK OMITNAMES STYLES SHEETS CONTENTS NAMES AFTERS LNAMES LOPTS
@@ -133,7 +134,7 @@ let run_xlsx = function
 
 (* ---------- xlsb ---------- *)
 let run_xlsb = function
-  | [d1904; omitprop; flagshi; proprest; junk1; junk2; endt; tail; rels; sheets; xtis; names] ->
+  | [d1904; omitprop; flagshi; proprest; junk1; junk2; endt; tail; rels; sheets; links; xtis; names] ->
     let sh = List.map fields (items sheets) in
     let nm = List.map fields (items names) in
     let wb = { wb_sheets = List.map meta_of sh;
@@ -146,7 +147,15 @@ let run_xlsb = function
                     bs_talt = bool_of f.(6) }) sh;
               bc_junk1 = recs junk1; bc_junk2 = recs junk2;
               bc_omit_prop = bool_of omitprop; bc_flags_hi = n_of_string flagshi;
-              bc_prop_rest = bytes_of_hex proprest; bc_xtis = triples xtis;
+              bc_prop_rest = bytes_of_hex proprest;
+              (* LINKS: the supporting links in record order, kind:hexpayload,… (self | same | addin | ext) *)
+              bc_links = (if links = "-" || links = "" then [] else
+                            List.map (fun t -> match String.split_on_char ':' t with
+                                | [k; h] -> (List.hd (Cmd_ptg.links_list (if k = "ext" then "ext:" else k)),
+                                             bytes_of_hex (if h = "-" then "" else h))
+                                | [k] -> (List.hd (Cmd_ptg.links_list (if k = "ext" then "ext:" else k)), [])
+                                | _ -> failwith "bad link") (String.split_on_char ',' links));
+              bc_xtis = triples xtis;
               bc_name_hdr = List.map (fun f ->
                   ((n_of_string f.(2), n_of_string f.(3)), n_of_string f.(4))) nm;
               bc_end = n_of_string endt; bc_tail = bytes_of_hex tail } in
@@ -155,31 +164,20 @@ let run_xlsb = function
     let bin = bytes_of_hex (hex_of_bytes (xlsb_workbook_bin c wb)) in
     let ext = spec_ext (List.map (fun m -> m.m_name) wb.wb_sheets) c.bc_xtis in
     String.concat "|" [ wire rev; hex_of_bytes bin; show_outcome (xlsb_open show_f64 rev bin);
-                        show_parsed wb.wb_sheets (spec_names_xlsb show_f64 ext [] wb.wb_names)
+                        show_parsed wb.wb_sheets (spec_names_xlsb show_f64 ext wb.wb_names)
                           wb.wb_1904;
                         "-"; b01 (xlsb_legal c wb) ]
   | _ -> "bad-args"
 
 (* ---------- xls ---------- *)
-let cls_of = function "r" -> Ptg.CRef | "v" -> Ptg.CVal | _ -> Ptg.CArr
-let cref_of (f : string array) (i : int) : Ptg.cref =
-  { Ptg.cr_row = n_of_string f.(i); cr_col = n_of_string f.(i + 1);
-    cr_row_rel = bool_of f.(i + 2); cr_col_rel = bool_of f.(i + 3) }
-let xref_of (s : string) : xref =
-  let f = Array.of_list (String.split_on_char '.' s) in
-  let k = cls_of f.(1) and ix = n_of_string f.(2) in
-  match f.(0) with
-  | "R" -> XRef (k, ix, cref_of f 3)
-  | "A" -> XArea (k, ix, cref_of f 3, cref_of f 7)
-  | "E" -> XRefErr (k, ix)
-  | _ -> XAreaErr (k, ix)
-
 let run_xls = function
-  | [d1904; omit; j0; j1; j2; j3; tail; sheets; xtis; names] ->
+  | [d1904; omit; j0; j1; j2; j3; tail; sheets; xtis; xcuts; names] ->
     let sh = List.map fields (items sheets) in
     let nm = List.map fields (items names) in
+    (* a name: name:AST:wide:flags:key:itab:rgcb(hex or -); the value is any expression of C14's grammar *)
     let wb = { wb_sheets = List.map meta_of sh;
-               wb_names = List.map (fun f -> (hx f.(0), xref_of f.(1))) nm;
+               wb_names = List.map (fun f ->
+                   (hx f.(0), Cmd_ptg.parse_ast (Array.of_list (String.split_on_char ' ' f.(1))))) nm;
                wb_1904 = bool_of d1904 } in
     let mk base =
       { lc_sheets = List.map (fun f ->
@@ -187,8 +185,10 @@ let run_xls = function
               ls_hi = n_of_string f.(5) }) sh;
         lc_names = List.map (fun f ->
             { ln_wide = bool_of f.(2); ln_flags = n_of_string f.(3); ln_key = n_of_string f.(4);
-              ln_itab = n_of_string f.(5) }) nm;
+              ln_itab = n_of_string f.(5); ln_rgcb = bytes_of_hex f.(6) }) nm;
         lc_xtis = triples xtis;
+        lc_xcuts = (if xcuts = "-" then [] else
+                      List.map (fun x -> Conv.nat_of_int (int_of_string x)) (String.split_on_char '.' xcuts));
         lc_junk0 = recs j0; lc_junk1 = recs j1; lc_junk2 = recs j2; lc_junk3 = recs j3;
         lc_omit_1904 = bool_of omit; lc_tail = bytes_of_hex tail } in
     (* sheet positions are given relative to the start of TAIL: the globals part has the same
@@ -198,7 +198,7 @@ let run_xls = function
     let c = mk (n_of_int glen) in
     let st = bytes_of_hex (hex_of_bytes (xls_stream c wb)) in
     String.concat "|" [ hex_of_bytes st; show_outcome (xls_parse_workbook show_f64 st);
-                        show_parsed wb.wb_sheets (spec_names_xls c wb) wb.wb_1904;
+                        show_parsed wb.wb_sheets (spec_names_xls show_f64 c wb) wb.wb_1904;
                         "-"; b01 (xls_legal c wb) ]
   | _ -> "bad-args"
 
